@@ -1149,7 +1149,8 @@ def ext(ctx):
                 "a resolution is given (pkg/docutil), the document validators, the create result; ClientApi.tla - the four calls of the "
                 "Sidetree client from the options to the request that leaves the client; ClientDoc.tla - the caller's document (keys, "
                 "services, also-known-as) to the document of the request; DocAccess.tla - the readers of pkg/document; Builders.tla - the four "
-                "request builders over valid and invalid inputs. A disagreement is reported as NONCONFORMANCE with "
+                "request builders over valid and invalid inputs; CompactJws.tla - making, serializing, parsing and verifying a compact JWS "
+                "(header precedence, detached payloads). A disagreement is reported as NONCONFORMANCE with "
                 "the extension specification, not as a violation of a property.")
     deep = ctx.tier != "quick"
     _, vs = ctx.tlc_pipe("MC_Versions.tla", "MC_Versions.cfg", ["versions-replay"], workers=4,
@@ -1211,6 +1212,14 @@ def ext(ctx):
         rec["ok"] = not rec["ok"]
 
     ctx.negctl_replay(["builders-replay"], bd["_first_edge"], bdwrong)
+    _, cj = ctx.tlc_pipe("MC_CompactJws.tla", "MC_CompactJws.cfg", ["compactjws-replay"], workers=2,
+                         label="CompactJws.tla: NewJWS / SerializeCompact / ParseJWS / VerifyJWS: protected headers x signer headers x payload x "
+                               "detached serialization x detached-payload option")
+
+    def cjwrong(rec):
+        rec["res"] = "verified" if rec["res"] != "verified" else "verify-refused"
+
+    ctx.negctl_replay(["compactjws-replay"], cj["_first_edge"], cjwrong)
     _, da = ctx.tlc_pipe("MC_DocAccess.tla", "MC_DocAccess.cfg", ["docaccess-replay"], workers=1,
                          label="DocAccess.tla: 33 accessors of pkg/document x 12 shapes of the member they read, alone and among "
                                "other members holding values of every kind")
